@@ -340,7 +340,8 @@ def params_from(subset, rng):
     p = {}
     for o in subset:
         if o == 'gf_separator':
-            p[o] = rng.choice(['-', '#', '+', ':', '|'])
+            # incl. values as options_dict delivers them (ints, empty string)
+            p[o] = rng.choice(['-', '#', '+', ':', '|', 0, 10, '', '0'])
         else:
             p[o] = True
     return p
